@@ -118,6 +118,9 @@ type Exec struct {
 	initDone   map[*ssa.Package]bool
 	lastAfterFunc *Term
 	onUnwind   int
+	loose      []uint64 // translator validation: concrete value stream
+	loosePos   int
+	looseOn    bool
 	wedgeMsg   string
 	models     []*cachedModel
 	known      map[*Term]bool // facts implied by the path condition (syntactic)
@@ -306,9 +309,21 @@ func (x *Exec) branch(cond *Term) bool {
 }
 
 // choose is an unconditional n-way nondeterministic choice.
+func (x *Exec) looseNext() uint64 {
+	if x.loosePos < len(x.loose) {
+		v := x.loose[x.loosePos]
+		x.loosePos++
+		return v
+	}
+	return 0
+}
+
 func (x *Exec) choose(n int, tag string) int {
 	if n <= 1 {
 		return 0
+	}
+	if x.looseOn {
+		return 0 // engine-internal choices (map order, select, scheduling) take the first alternative
 	}
 	if x.pos < len(x.prefix) {
 		d := x.prefix[x.pos]
